@@ -562,6 +562,11 @@ class Plugin:
                 if self.parallel and executor is not None:
                     new_future = executor.submit(self.do_compute, chunk_i=chunk_i, **inputs_merged)
                     pending_futures.append(new_future)
+                    for f in pending_futures:
+                        if f.done() and f.exception() is not None:
+                            # Do not forget a failed computation: cleanup() closes
+                            # inlined savers, which must learn the data is incomplete.
+                            raise f.exception()
                     pending_futures = [f for f in pending_futures if not f.done()]
                     yield new_future
                 else:
